@@ -156,11 +156,11 @@ pub fn run(args: &Args) {
     );
     report.assumption("relay's graphql_syntax::parse_executable is a logged second opinion only");
     let ex = exclusions(&report);
-    driver::run_single(args, &report, 1600, 48_000, &ex, &oracle);
+    driver::run_single(args, &report, 4000, 120_000, &ex, &oracle);
     report.finish();
 }
 
 pub fn exclusions(report: &Report) -> ArtExclusions {
     let _ = report;
-    ArtExclusions::default()
+    driver::negative_int_exclusion()
 }
